@@ -6,6 +6,6 @@ CONSTANTS
   MaxW = 1000
   WFull = 1000
   RecvMax = 1024
-  Hows = {"close", "atexit"}
+  HowSets = {{}, {"close", "atexit"}}
   MaxClose = 1
 CHECK_DEADLOCK FALSE
